@@ -8,6 +8,7 @@ from ..r_hygiene import rule_hygiene as _rule_hygiene
 from ..r_readers import rule_tokenizer_rejections as _rule_tok_rej
 from ..r_alias import rule_retry_flush as _rule_retry_flush
 from ..r_codebooks import rule_cx_radical_lists as _rule_cxr
+from ..r_readers import rule_leniency_scope as _rule_leniency
 
 LEVEL = 'other'
 EXEMPT = {('_convert', 'create_molecule', 'AtomNotFound'): 'infeasible for the daylight readers: every bond end was just inserted by the same parser '
@@ -33,3 +34,4 @@ def run(ck, repo):
     _rule_tok_rej(ck, repo, 'C03.D3-tokenizer-rejections')
     _rule_retry_flush(ck, repo, 'C03.D5-retry-flush', ['chython.files.daylight.smiles'], 1)
     _rule_cxr(ck, repo, 'C03.D2-cx-radical-lists', ['chython.files.daylight.smiles', 'chython.files.daylight.smarts'])
+    _rule_leniency(ck, repo, 'C03.D3-leniency-scope')
